@@ -29,8 +29,8 @@ EXECUTION_COUNTERS = ["nan_fault_runs", "max_functions_runs", "user_exception_ru
 RULE = ("case = (base configuration, fault kind); inside: all fault positions of that kind; a faulted run is non-trivial if the fault was actually reached; distinct key = (case, fault); "
         "monitor_counters: runs per fault kind, expected TOO_FEW runs, budget checks")
 ASSUMPTIONS = ["evaluators are deterministic, so a run with max_functions follows the unlimited run up to the stop", "realization weights are positive in this check (zero weights are C01/C06 territory)"]
-REQUIRED = {"quick": {"nan_fault_runs": 1339, "two_call_fault_runs": 30, "two_call_expected_too_few": 8, "expected_too_few_runs": 700, "expected_ok_runs": 400, "max_functions_runs": 450, "user_exception_runs": 400, "evaluator_step_runs": 78, "filter_induced_too_few": 30, "estimator_induced_too_few": 40, "delivery_checked": 700, "max_functions_runs_with_all_failed_evaluations": 4, "__nontrivial__": 2218},
-            "thorough": {"nan_fault_runs": 15000, "two_call_fault_runs": 270, "two_call_expected_too_few": 70, "expected_too_few_runs": 7000, "expected_ok_runs": 4000, "max_functions_runs": 4000, "user_exception_runs": 4000, "evaluator_step_runs": 759, "filter_induced_too_few": 300, "estimator_induced_too_few": 400, "delivery_checked": 7000, "max_functions_runs_with_all_failed_evaluations": 40, "__nontrivial__": 26097}}
+REQUIRED = {"quick": {"nan_fault_runs": 1339, "two_call_fault_runs": 30, "batch_member_fault_runs": 20, "merged_gradient_cases": 20, "two_call_expected_too_few": 8, "expected_too_few_runs": 700, "expected_ok_runs": 400, "max_functions_runs": 450, "user_exception_runs": 400, "evaluator_step_runs": 78, "filter_induced_too_few": 30, "estimator_induced_too_few": 40, "delivery_checked": 700, "max_functions_runs_with_all_failed_evaluations": 4, "__nontrivial__": 2218},
+            "thorough": {"nan_fault_runs": 15000, "two_call_fault_runs": 270, "batch_member_fault_runs": 180, "merged_gradient_cases": 180, "two_call_expected_too_few": 70, "expected_too_few_runs": 7000, "expected_ok_runs": 4000, "max_functions_runs": 4000, "user_exception_runs": 4000, "evaluator_step_runs": 759, "filter_induced_too_few": 300, "estimator_induced_too_few": 400, "delivery_checked": 7000, "max_functions_runs_with_all_failed_evaluations": 40, "__nontrivial__": 26097}}
 N = {"quick": 154, "thorough": 1400}
 KMAX = {"quick": 8, "thorough": 14}
 METHODS = ["slsqp", "l-bfgs-b", "evaluator_step", "nelder-mead", "cobyla", "differential_evolution", "evaluator_step"]
@@ -92,6 +92,8 @@ def gen_base(rng, i):
         # the limit is also given through an options dict: with options=None it would not reach SciPy (known finding of C08)
         spec["optimizer"] = {"method": method, "max_iterations": it, "options": {"maxiter": it}, "speculative": bool(rng.random() < 0.3),
                              "split_evaluations": bool(rng.random() < 0.3)}
+        if method in ("slsqp", "l-bfgs-b") and not spec.get("estimators") and rng.random() < 0.35:
+            spec["merge"] = True       # one least-squares system over all realizations: it can be left without any equation
     tkind = rng.choice(["none", "v", "o", "c", "all"], p=[0.4, 0.15, 0.15, 0.15, 0.15])
     tspec = None
     if tkind != "none":
@@ -256,6 +258,8 @@ def run_case(case, obs):
         return
     Ncalls = len(base.ev.calls)
     obs.feature("method." + method)
+    if spec.get("merge"):
+        obs.count("merged_gradient_cases")
     if spec.get("filters"):
         obs.feature("filter." + spec["filters"][0]["method"])
     if tspec:
@@ -324,6 +328,39 @@ def run_case(case, obs):
                         continue
                     if run.code != finished:
                         obs.violation("unexpected_exit_code", got=int(run.code), want=int(finished), **tag)
+        # batches (parallel methods): the failure hits the rows of one member of the batch only, not the first one
+        for k in range(min(Ncalls, KMAX[obs.tier])):
+            c = base.ev.calls[k]
+            if c.perturbations is not None or len(c.realizations) <= spec["R"]:
+                continue
+            B = len(c.realizations) // spec["R"]
+            for b in sorted({1, B - 1, int(rng.integers(1, B))}):
+                rs = [int(r) for r in range(spec["R"]) if rng.random() < 0.6] or [0]
+                s2 = dict(spec)
+                col = int(rng.integers(F))
+                s2["nan"] = [{"call": k, "row": b * spec["R"] + r, "r": r, "p": -1, "col": col} for r in rs]
+                run = execute(method, s2, tspec)
+                obs.count("batch_member_fault_runs")
+                tag = {"method": method, "call": k, "batch_member": b, "failed_realizations_of_that_member": rs, "filters": spec.get("filters"),
+                       "estimators": spec.get("estimators"), "rmin": spec["rmin"], "transforms": tspec}
+                if run.exc is not None:
+                    obs.violation("internal_exception_escaped", exception=repr(run.exc), **tag)
+                    continue
+                if len(run.ev.calls) <= k:
+                    obs.count("fault_not_reached")
+                    continue
+                verdict, reason = gate(s2, method, run.ev.calls[k], None)
+                obs.nontrivial(case["i"], "nanrow", k, b)
+                if verdict == "ambiguous":
+                    obs.count("ambiguous." + reason)
+                elif verdict == "too_few":
+                    obs.count("batch_member_expected_too_few")
+                    if run.code != X.TOO_FEW_REALIZATIONS:
+                        obs.violation("exit_code_should_be_too_few", got=int(run.code), reason=reason, **tag)
+                    elif len(run.ev.calls) != k + 1:
+                        obs.violation("evaluations_after_too_few", calls=len(run.ev.calls), **tag)
+                elif run.code == X.TOO_FEW_REALIZATIONS:
+                    obs.violation("exit_code_too_few_but_enough_successes", reason=reason, **tag)
         # faults in two evaluator calls of one point: a realization fails in the function request, the perturbations of another
         # one fail in the gradient-only request that follows (each tolerated on its own)
         if spec["R"] >= 2:
